@@ -38,14 +38,17 @@ def build(aotools):
     R["astronomy._astronomy:magnitude_to_flux"] = lambda g: [_call(7.5, "K"), _call(g.random(4) * 10, "V", dtypes=F32)]
     R["astronomy._astronomy:flux_to_magnitude"] = lambda g: [_call(1e6, "B")]
     # ---- fourier
+    # the spacing also as a 0-d and a 1-element array (what numpy.asarray(...) / numpy.diff(x)[:1] hand over): an argument like any other
     for n in ("ft", "ift"):
-        R["fouriertransform:" + n] = lambda g: [_call(g.standard_normal(16), 0.1, dtypes=ALLD), _call(g.standard_normal((3, 9)), 0.2)]
-    R["fouriertransform:rft"] = lambda g: [_call(g.standard_normal(16), 0.1, dtypes=F32I), _call(g.standard_normal((3, 8)), 0.2)]
-    R["fouriertransform:irft"] = lambda g: [_call(g.standard_normal(9) + 1j * g.standard_normal(9), 0.1)]
+        R["fouriertransform:" + n] = lambda g: [_call(g.standard_normal(16), 0.1, dtypes=ALLD), _call(g.standard_normal((3, 9)), 0.2),
+                                                _call(g.standard_normal(10), np.asarray(0.25)), _call(g.standard_normal((2, 7)), np.array([0.5]))]
+    R["fouriertransform:rft"] = lambda g: [_call(g.standard_normal(16), 0.1, dtypes=F32I), _call(g.standard_normal((3, 8)), 0.2), _call(g.standard_normal(8), np.array([0.5]))]
+    R["fouriertransform:irft"] = lambda g: [_call(g.standard_normal(9) + 1j * g.standard_normal(9), 0.1), _call(g.standard_normal(9) + 1j * g.standard_normal(9), np.array([0.5]))]
     for n in ("ft2", "ift2"):
-        R["fouriertransform:" + n] = lambda g: [_call(g.standard_normal((8, 8)), 0.1, dtypes=ALLD), _call(g.standard_normal((2, 7, 7)), 0.3)]
-    R["fouriertransform:rft2"] = lambda g: [_call(g.standard_normal((8, 8)), 0.1, dtypes=F32I)]
-    R["fouriertransform:irft2"] = lambda g: [_call(g.standard_normal((8, 5)) + 1j * g.standard_normal((8, 5)), 0.1)]
+        R["fouriertransform:" + n] = lambda g: [_call(g.standard_normal((8, 8)), 0.1, dtypes=ALLD), _call(g.standard_normal((2, 7, 7)), 0.3),
+                                                _call(g.standard_normal((6, 6)), np.asarray(0.25)), _call(g.standard_normal((5, 5)), np.array([0.5]))]
+    R["fouriertransform:rft2"] = lambda g: [_call(g.standard_normal((8, 8)), 0.1, dtypes=F32I), _call(g.standard_normal((6, 6)), np.array([0.5]))]
+    R["fouriertransform:irft2"] = lambda g: [_call(g.standard_normal((8, 5)) + 1j * g.standard_normal((8, 5)), 0.1), _call(g.standard_normal((8, 5)) + 1j * g.standard_normal((8, 5)), np.array([0.5]))]
     # ---- functions
     R["functions._functions:gaussian2d"] = lambda g: [_call(12, 3.0), _call((8, 10), (2.0, 3.0), 2.0, (3.0, 4.5)), _call(np.array([8, 10]), np.array([2.0, 3.0]))]
     R["functions.pupil:circle"] = lambda g: [_call(3.5, 10), _call(2.0, 9, (0.5, -1.0), "corner"), _call(2.0, 9, np.array([0.5, -1.0]))]
